@@ -3,7 +3,8 @@
      (getpath V P R)  (setpath V P N R)  (delpaths V (P...) R)          value level, judged by Path.v
      (heap (objs O...) (root C) (alloc on|off) (ops OP...) (res F (pre J...)))   heap level, judged by HeapPath.v
    V, N, J, R: transport values  null true false (i z) (s hex) empty cyc (a v...) (o (hexkey v)...) ; R may be err
-   P: (p comp...) with comp = (k hexkey) | (i z) | (sl S E) (S, E = n or an integer) | bad
+   P: (p comp...) with comp = (k hexkey) | (i z) | (sl S E) | bad
+      S, E = n (null) | an integer | (fr z) (a non-integer number whose floor is z) | nan
    O: (arr C...) | (map (hexkey C)...)      C: null true false (i z) (s hex) empty (sl a off len) (mp a)
    OP: (set P E) | (del P) | (sweep) | (delpaths (P...))
    E: C | (cur P) | (wrap1 E) | (wrap2 E) | (obj hexkey E)
@@ -43,9 +44,12 @@ Fixpoint dec_jv (e : sexp) : option jv :=
   | _ => None
   end.
 
-Definition dec_bound (e : sexp) : option (option Z) :=
+Definition dec_bound (e : sexp) : option (option bound) :=
   match e with
-  | Atom a => if atom_is "n" e then Some None else option_map Some (parse_Z a)
+  | Atom a => if atom_is "n" e then Some None
+              else if atom_is "nan" e then Some (Some BNaN)
+              else option_map (fun z => Some (bz z)) (parse_Z a)
+  | SList [t; Atom a] => if atom_is "fr" t then option_map (fun z => Some (BNum z false)) (parse_Z a) else None
   | _ => None
   end.
 
